@@ -2,12 +2,13 @@
 //! (1) C03's history and exploration workloads with NaN / +-inf in the alphabet: every non-NaN
 //!     answer, in particular those after a NaN, must be bit-identical to direct evaluation.
 //! (2) direct evaluation and evaluate_v with every f64 class: no panic.
-//! (3) panic sweep: the workloads of all other drivers, with only panics transferred here;
-//!     documented rejections are exercised and recorded, not judged.
+//! (3) panic sweep: run.py re-runs every other driver binary at reduced scale (events discarded) and
+//!     transfers only the panics they observed; documented rejections are exercised here and
+//!     recorded, not judged.
 
-use crate::gen::*;
-use crate::mon::*;
-use crate::probe::*;
+use ppv::gen::*;
+use ppv::mon::*;
+use ppv::probe::*;
 use crate::{c03, c12};
 use piecewise_polynomial::*;
 use serde_json::json;
@@ -26,7 +27,6 @@ pub const FLOORS: &[&str] = &[
     "documented_rejection:empty-evaluate_v",
     "documented_rejection:nan-end-add",
     "documented_rejection:nan-end-sub",
-    "sweep_ops",
 ];
 
 fn nan_payload(r: &mut Rng) -> f64 {
@@ -168,5 +168,4 @@ pub fn run(a: &Args, m: &mut Mon) {
     c03::workload_b(a, m, &mut r, nf, true);
     let nd = a.n(60_000, 6_000_000);
     direct_and_v(m, &mut r, nd);
-    crate::sweep::run(a, m, &mut r);
 }
